@@ -75,7 +75,15 @@ def run(ctx):
                     regs_all.append((f, reg, side))
     bad = [(f.qname, reg["kind"]) for f, reg, side in regs_all if side == "eb"]
     good_regs = [(f, reg) for f, reg, side in regs_all if side == "cb" and reg["kind"] in ("cb", "cbs")]
-    r.check(not bad and len(good_regs) == 1 and good_regs[0][0] is feeder and good_regs[0][1]["root"] in bound,
+    def _on_invocation(reg):
+        # the chain the handler is registered on is the Deferred of the processor invocation (named by any local or
+        # attribute that holds it)
+        if reg["root"] in bound:
+            return True
+        ns_ = cf.containing(reg["call"])
+        og_ = deferred_origins(cf, ns_[0].id, reg["root_node"]) if ns_ else None
+        return bool(og_) and all(o is inv_call for o in og_)
+    r.check(not bad and len(good_regs) == 1 and good_regs[0][0] is feeder and _on_invocation(good_regs[0][1]),
             "%s#registration" % upo.qname,
             "the writer of the processed offset is not registered exactly once, on-success only, on the Deferred of "
             "the processor invocation (found %s)" % [(f.qname, reg["kind"], side) for f, reg, side in regs_all],
@@ -208,8 +216,18 @@ def run(ctx):
     r.check(snap_ok, "%s#snapshot" % scr.qname, "commit request offset is not a single snapshot of _last_processed_offset",
             where(scr, ocr[0]), "value sent and value recorded can differ")
     sends = calls_in(scr, "send_offset_commit_request")
-    r.check(any(ocr[0] in ast.walk(a) or (isinstance(a, ast.List) and any(isinstance(e, ast.Name) for e in a.elts))
-                for c in sends for a in c.args), "%s#request-sent" % scr.qname,
+    def _carries_request(n_id, a, depth=0):
+        # the argument is (a list holding) the constructed request, through locals
+        if ocr[0] in ast.walk(a):
+            return True
+        if depth > 3:
+            return False
+        if isinstance(a, (ast.List, ast.Tuple)):
+            return any(_carries_request(n_id, e, depth + 1) for e in a.elts)
+        if isinstance(a, ast.Name):
+            return any(e is not a and _carries_request(dn, e, depth + 1) for dn, e in (value_origins(ctx.cfg(scr), n_id, a, params=scr.params) or []))
+        return False
+    r.check(any(_carries_request(ctx.cfg(scr).containing(c)[0].id, a) for c in sends for a in c.args), "%s#request-sent" % scr.qname,
             "the constructed OffsetCommitRequest is not what is sent", where(scr, sends[0]))
 
     # ---- R4 single commit in flight
@@ -267,7 +285,7 @@ def run(ctx):
             deps = sorted({norm(at(ctx, hor, t.id, t.stmt.test)) for t, lab in ch.control_deps_transitive(n.id) if t.kind == "test"})
             allowed = {"%s.offset == OFFSET_NOT_COMMITTED" % resp, "%s.offset != OFFSET_NOT_COMMITTED" % resp,
                        "OFFSET_NOT_COMMITTED == %s.offset" % resp, "OFFSET_NOT_COMMITTED != %s.offset" % resp}
-            extra = [d for d in deps if d not in allowed and not d.startswith("hasattr(")]
+            extra = [d for d in deps if d not in allowed and not (d[4:] if d.startswith("not ") else d).startswith("hasattr(")]
             ok = ok and not extra
             r.check(ok, "%s#reported-value" % hor.qname,
                     "committed offset is not recorded for exactly the replies whose offset is not the not-committed marker "
@@ -279,8 +297,8 @@ def run(ctx):
             sib = [m for m in ch.nodes if node_assign_value(m, "_fetch_offset") is not None and (
                 any(s == n.id and lab is None for s, lab in ch.succ[m.id]) or any(
                     s == m.id and lab is None for s, lab in ch.succ[n.id]))]
-            r6.check(len(sib) == 1 and norm(at(ctx, hor, sib[0].id, node_assign_value(sib[0], "_fetch_offset"))) in (
-                "%s.offset + 1" % resp, "1 + %s.offset" % resp), "%s#resume" % hor.qname,
+            r6.check(len(sib) == 1 and set(provenance_texts(ctx, hor, sib[0], node_assign_value(sib[0], "_fetch_offset"))) <= {
+                "%s.offset + 1" % resp, "1 + %s.offset" % resp}, "%s#resume" % hor.qname,
                 "fetch position after an offset-fetch reply is not committed + 1", where(hor, n.stmt),
                 "committed message redelivered (+0) or one message skipped (+2)")
 
